@@ -136,7 +136,7 @@ def work_ch(item):
     out = {"item": f"crosshair:{func}:len<={maxlen}", "paths": 0, "violations": [], "inconclusive": [], "samples": [], "ch": {}}
     # the harness reads MAXLEN from its source: run a copy with the bound patched (scratch file next to evidence, removed afterwards)
     src = open(CH).read().replace("MAXLEN = 4", f"MAXLEN = {maxlen}")
-    tmp = os.path.join(harness.ROOT, "checks", "crosshair", f"_ch_c09_{maxlen}_{func}.py")
+    tmp = os.path.join(harness.ROOT, "checks", "crosshair", f"_ch_c09_{maxlen}_{func}_{os.getpid()}.py")
     with open(tmp, "w") as f:
         f.write(src)
     try:
